@@ -203,6 +203,7 @@ func TestCheck(t *testing.T) {
 		r.Rule("each exchange = method x k8s-shaped or random path (escaped bytes, sub-delims, non-canonical escapes, empty/dot segments, trailing slash) x query (repeated keys, empty values, '+', %20, no '=', ';', malformed escapes) x " +
 			"0-12 headers (multi-valued, random wire casing, Te, Connection-nominated, X-Forwarded-For, User-Agent, Accept-Encoding) x body 0..2MiB fixed or chunked x upstream reply (21 status codes, 0-8 headers, fixed/chunked/close-delimited/no body, trailers, scripted gzip) " +
 			"written and read byte-exact on raw sockets on both sides of the real handler chain; plus terminated classes (429 max-in-flight 0, 429 on events, 503 unknown host / disabled / unhealthy endpoint, 403 refused impersonation, 401, malformed impersonation) with the same request generator. " +
+			"A third phase sends barrier-started batches of 16 distinct exchanges at the same moment through one gateway to one cluster, each judged by its own request id. " +
 			"Non-trivial = anything beyond a bare GET with a 200 reply; distinct = hash of the request bytes' shape and the reply script.")
 		r.Assume("the stub upstreams speak correct HTTP/1.1 (content-encoding gzip only with a real gzip stream; no mid-body failures)")
 		r.Assume("API-shaped paths the generic WithRequestInfo filter cannot parse are answered by k8s.io/apiserver with a plain-text 500 before kubegateway code runs: excluded and counted (excluded_unparsable_api_path)")
@@ -265,7 +266,21 @@ func TestCheck(t *testing.T) {
 			defer func() { pool <- tb }()
 			runBodyThenBigReply(r, tb, i, g)
 		})
+		// third phase: barrier-started batches of distinct requests through one gateway to one cluster at the same moment
+		// (the first two phases send one request at a time per gateway)
+		const batchSize = 16
+		nb := r.N(400, 4000)
+		r.Parallel(nb, workers, func(b int, g *vkit.Rand) {
+			base := n + m + b*batchSize
+			if only >= 0 && (only < base || only >= base+batchSize) {
+				return
+			}
+			tb := <-pool
+			defer func() { pool <- tb }()
+			runConcurrentBatch(r, tb, base, batchSize, g)
+		})
 		if only < 0 {
+			r.Require(r.Counter("concurrent_exchanges") == int64(nb*batchSize), "the concurrent phase did not run")
 			r.Require(r.Counter("body_then_big_reply_exchanges") == int64(m), "the request-body + large-reply phase did not run")
 			r.Require(r.Counter("forwarded_judged") >= int64(n/2), "too few forwarded exchanges were judged")
 			for _, c := range termClasses {
@@ -338,16 +353,85 @@ func fromH2(s bed.Seen) seenUp {
 // transport still owns it); the phase exists so that the outcome does not depend on luck in the mixed workload.
 func runBodyThenBigReply(r *vkit.R, tb *testbed, i int, g *vkit.Rand) {
 	r.Count("body_then_big_reply_exchanges", 1)
-	runForwardedShape(r, tb, i, g, true, false, true)
+	runForwardedShape(r, tb, i, g, true, false, true, nil)
 }
 
 func runForwarded(r *vkit.R, tb *testbed, i int, g *vkit.Rand, big bool, upgrade bool) {
-	runForwardedShape(r, tb, i, g, big, upgrade, false)
+	runForwardedShape(r, tb, i, g, big, upgrade, false, nil)
 }
 
-func runForwardedShape(r *vkit.R, tb *testbed, i int, g *vkit.Rand, big bool, upgrade bool, bodyThenBig bool) {
+// batch is one barrier-started group of exchanges sent at the same moment through the same gateway to the same cluster.
+type batch struct {
+	mu      sync.Mutex
+	targets map[string]string // request id -> request-target the client sent
+	ready   sync.WaitGroup
+	start   chan struct{}
+}
+
+// gate registers the member and blocks until every member of the batch is about to send.
+func (b *batch) gate(id, target string) {
+	b.mu.Lock()
+	b.targets[id] = target
+	b.mu.Unlock()
+	b.ready.Done()
+	<-b.start
+}
+
+// uriOfAnother reports the concurrent request whose path (when this one's path differs) or query (when this one's
+// query differs) is what the upstream received under this request's id.
+func (b *batch) uriOfAnother(id string, pathDiffers, queryDiffers bool, stubPath, stubQuery string) (string, string, string) {
+	b.mu.Lock()
+	defer b.mu.Unlock()
+	var oid, ot, part string
+	for o, t := range b.targets {
+		if o == id {
+			continue
+		}
+		op, oq := splitTarget(t)
+		// (the proxy handler re-appends a trailing slash of the request's own path to whatever location it copied)
+		pd, _ := comparePath(strings.TrimSuffix(op, "/"), strings.TrimSuffix(stubPath, "/"))
+		pm := pathDiffers && len(pd) == 0
+		qm := queryDiffers && len(compareQuery(oq, stubQuery, "")) == 0
+		switch {
+		case pm && (qm || !queryDiffers):
+			return o, t, "URI"
+		case pm && oid == "":
+			oid, ot, part = o, t, "path"
+		case qm && !pathDiffers:
+			return o, t, "query"
+		case qm && oid == "":
+			oid, ot, part = o, t, "query"
+		}
+	}
+	return oid, ot, part
+}
+
+// runConcurrentBatch sends k distinct exchanges at once through one gateway to one cluster (the forwarding cluster: two
+// endpoints, round robin, so every endpoint is picked by several requests that are in flight together) and judges each
+// by its own request id with the ordinary forwarded oracle. What a request is forwarded with must not depend on what
+// else is in flight.
+func runConcurrentBatch(r *vkit.R, tb *testbed, base int, k int, g *vkit.Rand) {
+	bt := &batch{targets: map[string]string{}, start: make(chan struct{})}
+	bt.ready.Add(k)
+	var wg sync.WaitGroup
+	for j := 0; j < k; j++ {
+		gj := g.Sub(j)
+		wg.Add(1)
+		go func(j int) {
+			defer wg.Done()
+			runForwardedShape(r, tb, base+j, gj, false, false, false, bt)
+		}(j)
+	}
+	bt.ready.Wait()
+	close(bt.start)
+	wg.Wait()
+	r.Count("concurrent_batches", 1)
+	r.Count("concurrent_exchanges", k)
+}
+
+func runForwardedShape(r *vkit.R, tb *testbed, i int, g *vkit.Rand, big bool, upgrade bool, bodyThenBig bool, bt *batch) {
 	id := fmt.Sprintf("c04-%d", i)
-	overH2 := tb.h2 != nil && !upgrade && !bodyThenBig && g.Chance(0.25)
+	overH2 := tb.h2 != nil && !upgrade && !bodyThenBig && bt == nil && g.Chance(0.25)
 	host := tb.hFwd
 	if overH2 {
 		host = tb.hH2
@@ -389,6 +473,10 @@ func runForwardedShape(r *vkit.R, tb *testbed, i int, g *vkit.Rand, big bool, up
 		for _, s := range tb.fwd {
 			s.Script(id, x.Reply)
 		}
+	}
+	if bt != nil {
+		x.Class = "forwarded-concurrent"
+		bt.gate(id, x.Req.Target)
 	}
 	resp := bed.RawDo(tb.gw.Addr(), x.Req, watchdog)
 	r.Eval(1)
@@ -459,6 +547,14 @@ func runForwardedShape(r *vkit.R, tb *testbed, i int, g *vkit.Rand, big bool, up
 	cp, cq := splitTarget(x.Req.Target)
 	sp, sq := splitTarget(s.Target)
 	pd, obs := comparePath(cp, sp)
+	qd := compareQuery(cq, sq, x.HostileQ)
+	if bt != nil && len(pd)+len(qd) > 0 {
+		if oid, ot, part := bt.uriOfAnother(id, len(pd) > 0, len(qd) > 0, sp, sq); oid != "" {
+			// one defect, one signature: the request went out with (part of) the URI of a request that was in flight together with it
+			ds = append(ds, diff{"uri-of-another-request", fmt.Sprintf("%s %s reached the upstream as %q: that is the %s of %s %q, which was sent at the same moment through the same gateway to the same cluster", x.Req.Method, x.Req.Target, s.Target, part, oid, ot)})
+			pd, qd = nil, nil
+		}
+	}
 	ds = append(ds, pd...)
 	if obs.pct2f {
 		r.Count("observed_pct2F_in_path_decoded_not_judged", 1)
@@ -469,7 +565,7 @@ func runForwardedShape(r *vkit.R, tb *testbed, i int, g *vkit.Rand, big bool, up
 	if cp != sp {
 		r.Count("observed_path_reencoded", 1)
 	}
-	ds = append(ds, compareQuery(cq, sq, x.HostileQ)...)
+	ds = append(ds, qd...)
 	if cq != "" {
 		r.Count("queries_compared", 1)
 	}
@@ -533,7 +629,9 @@ func runForwardedShape(r *vkit.R, tb *testbed, i int, g *vkit.Rand, big bool, up
 	r.Count("reply_framing_"+x.Reply.Framing, 1)
 
 	pathFeat := ""
-	if upgrade {
+	if bt != nil {
+		pathFeat = "concurrent/"
+	} else if upgrade {
 		pathFeat = "upgrade/"
 	} else if overH2 {
 		pathFeat = "h2/"
